@@ -362,7 +362,7 @@ func (l *ArrayListOfValue) Concat(other Value) (*ArrayListOfValue, Value) {
 			newList = append(newList, *o...)
 			return &newList, Undefined
 		case ArrayTuple:
-			newList := make(ArrayListOfValue, len(*l), len(*l)+o.Length())
+			newList := make(ArrayListOfValue, len(*l)+o.Length())
 			copy(newList, *l)
 
 			for i, element := range o.Elements() {
